@@ -481,6 +481,12 @@ func (db *DB) getActiveFileWriteOff() (off int64, err error) {
 				break
 			}
 
+			// a record that fails its checksum at the tail of the active (last) segment is a
+			// write that was cut short by a crash: the log ends in front of it.
+			if err == ErrCrc {
+				break
+			}
+
 			return -1, fmt.Errorf("when build activeDataIndex readAt err: %s", err)
 		}
 	}
@@ -551,6 +557,11 @@ func (db *DB) parseDataFiles(dataFileIds []int) (unconfirmedRecords []*Record, c
 				}
 
 				if off >= db.opt.SegmentSize {
+					break
+				}
+
+				// see getActiveFileWriteOff: a torn record can only be the tail of the last segment
+				if err == ErrCrc && dataID == dataFileIds[len(dataFileIds)-1] {
 					break
 				}
 				f.rwManager.Close()
